@@ -256,7 +256,8 @@ def cases(rng, tier):
     base = S.gen_cases(rng, tier, 90 if tier == "quick" else 1200) + S.default_cases(random.Random(str(rng.getstate()[1][0])), tier, 150 if tier == "quick" else 2500) + S.crosstype_cases() + S.hook_cases(random.Random("hook" + str(rng.getstate()[1][0])), tier, 120 if tier == "quick" else 2000) + inherit_cases(rng, 150 if tier == "quick" else 3000)
     # the extension field kinds (SizedString, IPV4, HostName, DateString, TimeString, JSONString) inside the modelled region:
     # the same type-directed streams with the extended declaration generator, and the directed pools
-    ext = S.gen_cases(random.Random("ext" + str(rng.getstate()[1][0])), tier, 70 if tier == "quick" else 1000, ext=True, prefix="E") + S.xstring_cases()
+    ext = S.gen_cases(random.Random("ext" + str(rng.getstate()[1][0])), tier, 70 if tier == "quick" else 1000, ext=True, prefix="E") + S.xstring_cases() \
+        + S.default_cases(random.Random("extd" + str(rng.getstate()[1][0])), tier, 80 if tier == "quick" else 1200, ext=True)
     # arguments that are the library's own typed wrappers, read from a laxly declared field of another instance
     tp = S.transplant_cases(random.Random("tp" + str(rng.getstate()[1][0])), tier, 60 if tier == "quick" else 800)
     # DecimalNumber (Sem/Decimal.lean): bare, Array items, Map values
@@ -265,7 +266,8 @@ def cases(rng, tier):
     dz = S.deser_chain_cases(random.Random("dz" + str(rng.getstate()[1][0])), tier, 150 if tier == "quick" else 2500)
     # the element-wise oracle of C02's extras stream, in C01's direction: a leaf value the BARE field rejects must not be
     # accepted at a nested position (oracle-only kinds: enums by value, date / datetime fields, bounded DecimalNumber ...)
-    return base + ext + tp + dec + dz + nestedhook_cases() + X.directed_ctor_cases()
+    nh = S.nested_hook_cases(random.Random("nh" + str(rng.getstate()[1][0])), tier, 40 if tier == "quick" else 600)
+    return base + ext + tp + dec + dz + nh + nestedhook_cases() + X.directed_ctor_cases() + X.decimal_cases()
 
 
 def search_cases(rng, tier):
@@ -275,7 +277,11 @@ def search_cases(rng, tier):
 
 
 def _i(case):
-    return case.get("suite") in ("inherit", "nestedhook", "extras-ctor")
+    return case.get("suite") in ("inherit", "nestedhook", "extras-ctor", "extras-decimal")
+
+
+def _xd(case):
+    return case.get("suite") == "extras-decimal"
 
 
 def _xc(case):
@@ -287,6 +293,8 @@ def _nh(case):
 
 
 def run_impl(case):
+    if _xd(case):
+        return X.run_decimal(case)
     if _xc(case):
         return X.run_ctor(case)
     if _nh(case):
@@ -299,6 +307,8 @@ def line(case, impl):
 
 
 def tags(case, impl, model):
+    if _xd(case):
+        return ["stream:extras-decimal"]
     if _xc(case):
         return ["stream:extras-ctor", "extras:" + impl.get("out", "skipped")]
     if _nh(case):
@@ -317,6 +327,10 @@ def describe(case, impl, model):
 
 
 def judge(case, impl, model):
+    if _xd(case):
+        # C01's direction of the bound probes: a DecimalNumber beyond its bound must not be stored; what is stored equals the number given
+        return None, ([] if "skip" in impl else [f for f in X.judge_decimal_ctor(case, impl)
+                                                  if f[0].startswith(("extras:decimal:accepts-undocumented", "extras:decimal:normal-form"))])
     if _xc(case):
         return None, [f for f in X.judge_ctor(case, impl) if f[0].startswith("extras:element-not-validated")]
     if _nh(case):
@@ -353,6 +367,9 @@ def judge(case, impl, model):
     if "unbuildable" in impl or "abstraction_mismatch" in impl:
         return msg, fails
     kind = S.top_kind(case)
+    if model.get("implNestedHooksOk") is False:
+        fails.append((f"ill-formed-instance:nested-hook:allInst:{kind}", "the returned instance holds a nested instance that the hook of its class refuses: "
+                      + json.dumps(impl.get("chain", {}).get("ok") or impl.get("ok"))[:300]))
     if "implWellFormed" in model and not model["implWellFormed"]:
         via = "chain " + json.dumps([o["op"] for o in impl["chain"].get("applied", [])]) if impl.get("chain", {}).get("ok") else "constructor"
         final = impl.get("chain", {}).get("ok") or impl.get("ok")
